@@ -49,6 +49,11 @@ CHECKS = {
    text="down_exact and down_wellformed (for any chunking of the host stream with reads ≤ forwardReadSize — regenerated from the Go source — the payloads the client parses concatenate to the host stream; every DATA packet ≤ 4096 with truthful length fields), receive_spec / receive_exact (min(declared, carried), never invented bytes), up_exact / up_exact_wellformed (any DATA packets under any segmentation: host receives exactly the concatenated payloads), interleave_intact (Props/C06.lean). Tie: VerifReceive and VerifForward over pipes compared with Body.receive / Resp.dataPacket; whole tunnels over websocket and legacy with both directions concurrently, sizes around 0/1/4085-4087/4096/8192/65535, random segmentation; both ends' bytes compared with what was sent.",
    design="6/C06",
    note="Write errors towards a dead client are ignored by the code (D20, C11's concern). The interleaving of the two writers is serialised by Tunnel.writeMu (C09); here it enters only through interleave_intact."),
+ "C19": dict(
+   technique="Lean 4 round-trip theorem for the RDP parser/marshaller (byte-level model of ScanLines, Unicode TrimSpace, SplitN, Atoi/%d) and builder theorems over the settings table regenerated from the Go struct + differential correspondence with the real rdp packages",
+   text="roundtrip (for every key-sorted map with distinct well-formed names, int-range integers and LF-free, blank-free strings — ':' , inner CR and non-ASCII allowed — unmarshal (marshal m) = m), atoi_itoa, malformed_rejected / too_few_fields / unknown_type / bad_integer (never skipped), lines_wellformed, at_most_one_line, table_tags_distinct and table_tags_ok (decided on the regenerated table), builder_roundtrip, forced_settings_exist (Props/C19.lean). Tie: rdp.Parser().Marshal/Unmarshal, rdp.NewBuilder().String() and NewBuilderFromFile compared with the model on generated maps, arbitrary bytes, malformed files, random field assignments and templates; round trip and one-line-per-setting are also evaluated on the implementation.",
+   design="6/C19",
+   note="koanf/mapstructure weak typing is modelled only for the value shapes generated (integers for int/bool fields, strings/integers for string fields, decimal/boolean strings). Lines above bufio's 64 KiB limit are outside the quantifier (≤ 4 KiB)."),
 }
 
 def entry(pid, c):
